@@ -419,6 +419,16 @@ def run_trace(rep, tier):
     for rel in RULE_FILES:
         path = os.path.join(REPO, rel)
         tree = ast.parse(open(path).read())
+        # raw-NumPy aliases of THIS module, from its own import statements (whatever they are called)
+        for n_ in tree.body:
+            if isinstance(n_, ast.Import):
+                for a_ in n_.names:
+                    if a_.name in ("numpy", "numpy.linalg", "numpy.fft", "numpy.random", "scipy", "scipy.linalg", "scipy.special"):
+                        RAW.add(a_.asname or a_.name.split(".")[0])
+            elif isinstance(n_, ast.ImportFrom) and (n_.module or "") in ("numpy", "scipy") and not n_.level:
+                for a_ in n_.names:
+                    if a_.name in ("linalg", "fft", "random", "special"):
+                        RAW.add(a_.asname or a_.name)
         hits = []
         prim_helpers = []
         # rule functions: every top-level def and every lambda passed to defvjp/defjvp*, whose parameters may be boxes
@@ -466,7 +476,8 @@ def run_trace(rep, tier):
             if not ok:
                 rep.violation("E5c:registry-closure", f"{rel}:{h}", f"@primitive helper {h} in {rel} lacks a {'VJP' if not has_v else 'JVP'} rule: rules that call it cannot be differentiated again", witness=False)
         for rel_, qual, line, fname, text in hits:
-            ok = (rel_, qual, fname) in AUDITED_RAW or any((rel_, q, f) == (rel_, q, fname) and qual.startswith(q.split(".")[0]) for (r, q, f) in AUDITED_RAW if r == rel_)
+            tail = lambda f_: f_.split(".", 1)[1] if "." in f_ else f_     # audited sites are keyed by the NumPy function, not by the alias the module gives NumPy
+            ok = any(r == rel_ and tail(f) == tail(fname) and (q == qual or qual.startswith(q.split(".")[0])) for (r, q, f) in AUDITED_RAW)
             name = f"E5c:{rel_}:{qual}:{fname}"
             rep.obligation(name, ok, "ast-abstract-interpretation", 0, "E5", sample=f"{rel_}:{line}: {text}")
             if not ok:
